@@ -107,6 +107,73 @@ fn encode_all<S: Write + ?Sized>(values: &[ValSpec], sink: &mut S) -> Result<(),
     Ok(())
 }
 
+struct EncodeThrough<'e, S: Write> {
+    enc: &'e mut minicbor::Encoder<S>,
+}
+
+impl<'e, S: Write> EncVisitor for EncodeThrough<'e, S> {
+    type Out = Result<(), ErrInfo>;
+    fn visit<T: Encode<()> + Debug>(self, v: &T) -> Self::Out {
+        self.enc.encode(v).map(|_| ()).map_err(|e| ErrInfo { is_write: e.is_write(), msg: format!("{:?}", e.to_string_lossy()) })
+    }
+}
+
+/// Encode all values through ONE `Encoder` and keep going after a failure, like a caller that fills a packet with as many
+/// records as fit: one result per value.
+fn encode_each<S: Write + ?Sized>(values: &[ValSpec], sink: &mut S) -> Vec<Result<(), ErrInfo>> {
+    let mut enc = minicbor::Encoder::new(&mut *sink);
+    values.iter().map(|v| with_value(v, EncodeThrough { enc: &mut enc })).collect()
+}
+
+/// What the bounded-buffer model says about `encode_each`: every internal write is all-or-nothing, a value fails at its first
+/// write that does not fit and the next value starts where the sink then stands.
+struct Continued {
+    ok: Vec<bool>,
+    bytes: Vec<u8>,
+}
+
+fn continued_model(reference: &[u8], cuts: &[usize], per_value: &[usize], cap: usize) -> Continued {
+    let mut ok = Vec::new();
+    let mut bytes = Vec::new();
+    let mut w = 0usize; // index into cuts
+    let mut start = 0usize;
+    for &nw in per_value {
+        let mut good = true;
+        for k in w..w + nw {
+            let end = cuts[k];
+            if good {
+                if bytes.len() + (end - start) <= cap {
+                    bytes.extend_from_slice(&reference[start..end]);
+                } else {
+                    good = false;
+                }
+            }
+            start = end;
+        }
+        w += nw;
+        ok.push(good);
+    }
+    Continued { ok, bytes }
+}
+
+fn judge_continued(k: &str, c: usize, results: &[Result<(), ErrInfo>], pos: usize, content: &[u8], m: &Continued) -> Result<(), Violation> {
+    for (j, r) in results.iter().enumerate() {
+        match r {
+            Ok(()) if !m.ok[j] => fail!("fit_iff", "{k} cap={c}: value #{j} of a sequence on one Encoder reported success although its encoding does not fit the room left"),
+            Err(e) if m.ok[j] => fail!("fit_iff", "{k} cap={c}: value #{j} of a sequence on one Encoder fits the room left (earlier values were refused) but returned an error ({})", e.msg),
+            Err(e) if !e.is_write => fail!("err_is_write", "{k} cap={c}: value #{j} of a sequence on one Encoder does not fit, but the failure is not reported as a write error ({})", e.msg),
+            _ => {}
+        }
+    }
+    if pos != m.bytes.len() {
+        fail!("position_accounting", "{k} cap={c}: after a sequence on one Encoder (continued past failures) the position is {pos}, the accepted bytes are {}", m.bytes.len());
+    }
+    if content.len() < pos || content[..pos] != m.bytes[..] {
+        fail!("prefix_left", "{k} cap={c}: after a sequence on one Encoder (continued past failures) the accepted bytes are not the accepted writes in order");
+    }
+    Ok(())
+}
+
 /// Records the encoder's internal `write_all` sequence (lengths), to know the write boundaries.
 struct Rec {
     bytes: Vec<u8>,
@@ -305,13 +372,19 @@ fn io_lane(io_seed: u64, cap: usize) -> (Vec<Step>, FullMode, bool) {
 fn run_encode(values: &[ValSpec], only_sink: Option<Sink>, only_cap: Option<u32>, io_seed: u64, obs: &Rc<RefCell<Obs>>) -> Result<(), Violation> {
     // reference: the unbounded sink, plus the internal write boundaries
     let mut rec = Rec { bytes: Vec::new(), cuts: Vec::new() };
-    if encode_all(values, &mut rec).is_err() {
-        // the encoder itself refuses one of the values: not a statement about sinks
-        return Ok(());
+    let mut per_value: Vec<usize> = Vec::new(); // number of internal writes of each value
+    for v in values {
+        let before = rec.cuts.len();
+        if encode_all(std::slice::from_ref(v), &mut rec).is_err() {
+            // the encoder itself refuses one of the values: not a statement about sinks
+            return Ok(());
+        }
+        per_value.push(rec.cuts.len() - before);
     }
     let reference = rec.bytes;
     let cuts = rec.cuts;
     let n = reference.len();
+    let keep_going = values.len() >= 2;
     let mut vec_ref = Vec::new();
     let _ = encode_all(values, &mut vec_ref);
     if vec_ref != reference {
@@ -325,12 +398,13 @@ fn run_encode(values: &[ValSpec], only_sink: Option<Sink>, only_cap: Option<u32>
             let mut v = vec![0, 1, n - 1, n, n + 1];
             // every internal-write boundary +-1 would be too many for huge sequences; take those near the ends and a spread
             for (i, c) in cuts.iter().enumerate() {
-                if i < 6 || i + 6 >= cuts.len() || i % (cuts.len() / 16 + 1) == 0 {
+                let spread = if n > 60_000 { i < 3 || i + 3 >= cuts.len() } else { i < 6 || i + 6 >= cuts.len() || i % (cuts.len() / 16 + 1) == 0 };
+                if spread {
                     v.extend_from_slice(&[c.saturating_sub(1), *c, c + 1]);
                 }
             }
             let mut r = Rng::new(io_seed ^ 0xC13);
-            for _ in 0..8 {
+            for _ in 0..(if n > 60_000 { 3 } else { 8 }) {
                 v.push(r.below(n as u64 + 2) as usize);
             }
             v.sort_unstable();
@@ -383,6 +457,16 @@ fn run_encode(values: &[ValSpec], only_sink: Option<Sink>, only_cap: Option<u32>
                     };
                     canaries_ok(&backing, c, sink.name())?;
                     judge(&Outcome { sink, cap: c, result, accepted, tapped: Some(tapped), device_error: false, content: &backing[GUARD..GUARD + c] }, &reference)?;
+                    if keep_going {
+                        let mut backing = guarded(c);
+                        let (results, pos) = {
+                            let mut sl: &mut [u8] = &mut backing[GUARD..GUARD + c];
+                            let r = encode_each(values, &mut sl);
+                            (r, c - sl.len())
+                        };
+                        canaries_ok(&backing, c, sink.name())?;
+                        judge_continued(sink.name(), c, &results, pos, &backing[GUARD..GUARD + c], &continued_model(&reference, &cuts, &per_value, c))?;
+                    }
                 }
                 Sink::SliceCursor => {
                     let mut backing = guarded(c);
@@ -397,6 +481,16 @@ fn run_encode(values: &[ValSpec], only_sink: Option<Sink>, only_cap: Option<u32>
                     };
                     canaries_ok(&backing, c, sink.name())?;
                     judge(&Outcome { sink, cap: c, result, accepted, tapped: Some(tapped), device_error: false, content: &backing[GUARD..GUARD + c] }, &reference)?;
+                    if keep_going {
+                        let mut backing = guarded(c);
+                        let (results, pos) = {
+                            let mut cur = Cursor::new(&mut backing[GUARD..GUARD + c]);
+                            let r = encode_each(values, &mut cur);
+                            (r, cur.position())
+                        };
+                        canaries_ok(&backing, c, sink.name())?;
+                        judge_continued(sink.name(), c, &results, pos, &backing[GUARD..GUARD + c], &continued_model(&reference, &cuts, &per_value, c))?;
+                    }
                 }
                 Sink::ArrayCursor => {
                     let mut f = |w: &mut dyn ArrCur| {
@@ -409,6 +503,15 @@ fn run_encode(values: &[ValSpec], only_sink: Option<Sink>, only_cap: Option<u32>
                     };
                     if let Some((result, accepted, tapped, bytes)) = array_sink(c, &mut f) {
                         judge(&Outcome { sink, cap: c, result, accepted, tapped: Some(tapped), device_error: false, content: &bytes }, &reference)?;
+                    }
+                    if keep_going {
+                        let mut g = |w: &mut dyn ArrCur| {
+                            let r = encode_each(values, &mut *w);
+                            (r, w.pos(), w.bytes().to_vec())
+                        };
+                        if let Some((results, pos, bytes)) = array_sink(c, &mut g) {
+                            judge_continued(sink.name(), c, &results, pos, &bytes, &continued_model(&reference, &cuts, &per_value, c))?;
+                        }
                     }
                     // and the monomorphic path (no dyn, no tap) for two fixed sizes
                     if c == 16 {
@@ -437,6 +540,13 @@ fn run_encode(values: &[ValSpec], only_sink: Option<Sink>, only_cap: Option<u32>
                         fail!("no_overrun", "box_cursor cap={c}: the boxed slice changed length to {}", inner.len());
                     }
                     judge(&Outcome { sink, cap: c, result, accepted, tapped: Some(tapped), device_error: false, content: &inner }, &reference)?;
+                    if keep_going {
+                        let mut cur = Cursor::new(vec![PATTERN; c].into_boxed_slice());
+                        let results = encode_each(values, &mut cur);
+                        let pos = cur.position();
+                        let inner = cur.into_inner();
+                        judge_continued(sink.name(), c, &results, pos, &inner, &continued_model(&reference, &cuts, &per_value, c))?;
+                    }
                 }
                 Sink::VecSink => {
                     // growable: never fails; pre-existing content must be kept and the encoding appended
@@ -448,6 +558,26 @@ fn run_encode(values: &[ValSpec], only_sink: Option<Sink>, only_cap: Option<u32>
                     }
                     if v.len() != pre + n || v[..pre].iter().any(|b| *b != PATTERN) || v[pre..] != reference[..] {
                         fail!("bytes_equal", "vec with {pre} bytes of prior content: content is not prior ++ encoding");
+                    }
+                    // recycled vectors: spare capacity of every scale relative to the encoding (the capacity plays the part
+                    // of "c" here), through one Encoder
+                    let variants = if n > EXHAUSTIVE_UPTO { 0..4 } else { c % 4..c % 4 + 1 };
+                    for variant in variants {
+                        let spare = match variant {
+                            0 => c,
+                            1 => n / 2 + c,
+                            2 => 65_537 + c % 4096,
+                            _ => n + c,
+                        };
+                        let mut v: Vec<u8> = Vec::with_capacity(pre + spare);
+                        v.resize(pre, PATTERN);
+                        let results = encode_each(values, &mut v);
+                        if results.iter().any(|r| r.is_err()) {
+                            fail!("fit_iff", "vec with {spare} bytes of spare capacity: a growable vector refused the encoding");
+                        }
+                        if v.len() != pre + n || v[..pre].iter().any(|b| *b != PATTERN) || v[pre..] != reference[..] {
+                            fail!("bytes_equal", "vec with {pre} bytes of prior content and {spare} spare: content is not prior ++ encoding");
+                        }
                     }
                 }
                 Sink::IoWriter => {
@@ -728,8 +858,8 @@ impl Property for P13 {
 
     fn random_runs(tier: Tier) -> u64 {
         match tier {
-            Tier::Quick => 100_000,
-            Tier::Thorough => 10_000_000,
+            Tier::Quick => 60_000,
+            Tier::Thorough => 6_000_000,
         }
     }
 
@@ -748,8 +878,22 @@ impl Property for P13 {
                 .collect();
             return C13::Raw { sink, cap, writes };
         }
+        // genuinely large items (one internal write of 64 KiB and more): few, because each costs as much as thousands of small ones
+        if r.chance(1, if tier == Tier::Thorough { 600 } else { 1500 }) {
+            let mut values = vec![ValSpec { ty: *r.pick(BYTEY_TYS), size: gen_big_size(r), seed: r.next_u64() }];
+            match r.below(4) {
+                0 => values.insert(0, gen_spec(r, ALL_TYS, false)),
+                1 => values.push(gen_spec(r, ALL_TYS, false)),
+                2 => {
+                    values.push(ValSpec { ty: *r.pick(BYTEY_TYS), size: gen_big_size(r), seed: r.next_u64() });
+                    values.push(ValSpec { ty: *r.pick(BYTEY_TYS), size: gen_big_size(r), seed: r.next_u64() });
+                }
+                _ => {}
+            }
+            return C13::Encode { values, sink: None, cap: None, io_seed: r.next_u64() };
+        }
         let big = tier == Tier::Thorough && r.chance(1, 200);
-        let nvals = if big { 1 } else { *r.pick(&[1usize, 1, 1, 2, 3]) };
+        let nvals = if big { 1 } else { *r.pick(&[1usize, 1, 2, 2, 3, 4]) };
         let values = (0..nvals).map(|_| gen_spec(r, ALL_TYS, big)).collect();
         C13::Encode { values, sink: None, cap: None, io_seed: r.next_u64() }
     }
